@@ -477,6 +477,24 @@ def extract_cases(tier, rng):
                 cases.append({"op": "tril", "k": k, "x": x0})
             for axis in range(-nd, nd):
                 cases.append({"op": "diagonalize", "axis": axis, "x": x0})
+    # row + k / offset beyond the coordinate dtype's maximum: stored elements in the last rows and columns of an array
+    # whose extents sit at the dtype's capacity (seeded C09-m5: `row + k` formed in the narrow dtype wraps)
+    for dt, n in (("int8", 127), ("int8", 128), ("uint8", 255), ("uint8", 256)) + ((("int16", 300),) if tier != "quick" else ()):
+        for lead in ([], [2]):
+            sh = lead + [n, n]
+            cells = {(n - 1, 0), (n - 1, n - 1), (n - 2, 1), (0, n - 1), (n // 2, n // 2), (n - 3, n - 4), (1, 0)}
+            while len(cells) < 14:
+                cells.add((rng.randrange(n), rng.randrange(n)))
+            pos = sorted(tuple(rng.randrange(d) for d in lead) + c for c in cells)
+            x0 = {"shape": sh, "coords": [list(q) for q in sorted(set(pos))], "fill": 0, "format": "coo", "caxes": None,
+                  "idx_dtype": dt}
+            x0["data"] = [rng.choice((1, 2, 3, -1)) for _ in x0["coords"]]
+            for k in (1, 3, 20, n - 2, -4):
+                cases.append({"op": "triu", "k": k, "x": x0})
+                cases.append({"op": "tril", "k": k, "x": x0})
+            if not lead:
+                for off in (1, 3, n - 2, -3):
+                    cases.append({"op": "diagonal", "offset": off, "axis1": 0, "axis2": 1, "x": x0})
     return cases
 
 
